@@ -13,7 +13,7 @@ import (
 	"verif/harness/sm"
 )
 
-const ruleC03 = "collections constructed from drawn parameters: N in {0,1,2,39,40,41,200,600} (thorough: up to 5000) documents inserted in 1-3 batches, pad strings of 0-1500 bytes so that N spans one to ~150 bbolt leaf pages and the document/index key boundary falls at varying offsets, x = (a*i+b) mod m (optionally cycling int/float/string), index sets over {x, u, y, pad}, bbolt and badger (in memory; on disk in the thorough tier). One bulk operation per case: Update (map), UpdateFunc (copying, in-place, x += k on the filtered/sorted field, nil = delete), Delete, DropCollection (+ re-create), with criteria on the rewritten field, sort on unique keys, skip/limit. Oracle (reference model): the update function runs exactly once per document that FindAll selected immediately before, each time on the pre-call value; afterwards every selected document is f(old) or gone and every other document is unchanged; followed by a complete raw key audit and a full comparison of the collection. An evaluation is one bulk operation; non-trivial when 0 < matched < N and (N >= 100 or an index exists); distinct = distinct cases."
+const ruleC03 = "collections constructed from drawn parameters: N in {0,1,2,39,40,41,200,600} (thorough: up to 5000) documents inserted in 1-3 batches, pad strings of 0-1500 bytes so that N spans one to ~150 bbolt leaf pages and the document/index key boundary falls at varying offsets, x = (a*i+b) mod m (optionally cycling int/float/string), index sets over {x, u, y, pad}, bbolt and badger (in memory; on disk in the thorough tier). One bulk operation per case: Update (map), UpdateFunc (copying, in-place, x += k on the filtered/sorted field, nil = delete), Delete, DropCollection (+ re-create), with criteria on the rewritten field, sort on unique keys, skip/limit. Oracle (reference model): the update function runs exactly once per document that FindAll selected immediately before, each time on the pre-call value; afterwards every selected document is f(old) or gone and every other document is unchanged; followed by a complete raw key audit and a full comparison of the collection. An evaluation is one bulk operation; non-trivial when 0 < matched < N and (N >= 100 or an index exists); distinct = distinct cases. A second part races bulk Update/UpdateFunc/Delete with point writes on one handle (schedule perturbed at every store call): the recorded history with a sequential epilogue must be linearizable, i.e. every bulk operation touched exactly what FindAll returned at its linearization point."
 
 func c03Session(backend string) (*sm.Session, error) {
 	s, err := sm.NewSession("C03", "c03", backend)
@@ -36,6 +36,21 @@ func c03Session(backend string) (*sm.Session, error) {
 func init() { registerSM("C03", "c03", c03Session) }
 
 func TestC03(t *testing.T) {
+	t.Run("cases", testC03Cases)
+	t.Run("concurrent", func(t *testing.T) {
+		// bulk operations racing with point writes: the set a bulk Update/Delete touches must be the
+		// one a FindAll at its linearization point returns (no stale selection, no lost update)
+		col := collector("C03", ruleC03)
+		check(t, "C03", cases(60, 1500), 0, func(rt *rapid.T) {
+			h, verdict := concurrentCase(rt, "C03", []string{"update", "updatefunc", "updatefunc", "delete", "deletebyid", "updatebyid", "insert", "find", "count"})
+			col.Case(overlapWrite(h), hashOf(h.Setup, len(h.Ops), h.Ops[0].Op), func() interface{} {
+				return map[string]interface{}{"mode": "concurrent", "backend": h.Backend, "operations": len(h.Ops), "verdict": verdict}
+			}, "concurrent", "verdict:"+verdict)
+		})
+	})
+}
+
+func testC03Cases(t *testing.T) {
 	col := collector("C03", ruleC03)
 	sizes := []int{0, 1, 2, 39, 40, 41, 200, 600}
 	backends := []string{run.Bbolt, run.Bbolt, run.BadgerMem}
@@ -125,7 +140,14 @@ func TestC03(t *testing.T) {
 			if rapid.Bool().Draw(rt, "windowed") {
 				sk := rapid.SampledFrom([]int{0, 1, n / 2, n - 1}).Draw(rt, "skip")
 				li := rapid.SampledFrom([]int{1, 2, n / 3, n}).Draw(rt, "limit")
-				q.Skip, q.Limit = &sk, &li
+				switch rapid.IntRange(0, 3).Draw(rt, "window-shape") {
+				case 0:
+					q.Skip = &sk // skip only
+				case 1:
+					q.Limit = &li // limit only
+				default:
+					q.Skip, q.Limit = &sk, &li
+				}
 			}
 		}
 		if _, ok := model.Select(q, s.M.Colls["A"].Docs); !ok {
